@@ -60,6 +60,10 @@ type V2Case struct {
 	CI         int64       `json:"checkpoint_interval"`
 	HF         int8        `json:"height_filter"`
 	ED         int8        `json:"eviction_depth"`
+	// CM: TreeOptions.CheckpointMemory (0 = off): additional checkpoints wherever the working set exceeds CM bytes, so
+	// checkpoints fall on versions the interval alone would not choose (never combined with pruning: the versions that
+	// must survive a prune are stated in terms of checkpoints, whose positions are then not known to the harness)
+	CM uint64 `json:"checkpoint_memory,omitempty"`
 	Versions   [][]V2Op    `json:"versions"`
 	Queries    [][]V2Query `json:"queries,omitempty"`
 	PruneAfter int         `json:"prune_after,omitempty"` // issue DeleteVersionsTo(PruneTo) after this many commits (0 = never)
@@ -146,6 +150,7 @@ func checkpointsOf(n int, ci int64) map[int64]bool {
 
 type v2Stats struct {
 	checkpoints, nonCheckpointCommits, removals, rotations int
+	reloadsUnknownCheckpoint                               int
 	reloads, replayedReloads, replayedWithRemoval         int
 	f14Skipped, queries, continued, snapshots, pruned     int
 	pruneNotFinished                                      int
@@ -181,6 +186,7 @@ func runV2(c V2Case) (v *Violation, st v2Stats) {
 		opts.CheckpointInterval = c.CI
 		opts.HeightFilter = c.HF
 		opts.EvictionDepth = c.ED
+		opts.CheckpointMemory = c.CM
 		return iavl2.NewTree(sql, pool, opts), nil
 	}
 	tr, err := open()
@@ -425,7 +431,9 @@ func runV2(c V2Case) (v *Violation, st v2Stats) {
 		}
 		replayed := !cps[target]
 		values := true
-		if replayed {
+		if replayed && c.CM > 0 {
+			st.reloadsUnknownCheckpoint++ // checkpoint positions are not known to the harness: not counted as replayed
+		} else if replayed {
 			st.replayedReloads++
 			sawRemoval := false
 			for x := target; x >= 1 && !cps[x]; x-- {
@@ -723,6 +731,9 @@ func genV2Case(t *rapid.T, prop string, reload bool) V2Case {
 		}
 		c.Queries = append(c.Queries, qs)
 	}
+	if !reload {
+		c.CM = rapid.SampledFrom([]uint64{0, 0, 0, 1, 300, 3000}).Draw(t, "cm")
+	}
 	if reload {
 		if nver >= 3 && rapid.IntRange(0, 2).Draw(t, "doPrune") == 0 {
 			c.PruneAfter = rapid.IntRange(2, nver).Draw(t, "pruneAfter")
@@ -737,6 +748,9 @@ func genV2Case(t *rapid.T, prop string, reload bool) V2Case {
 			}
 			c.SnapshotAt = rapid.Int64Range(1, hi).Draw(t, "snapAt")
 			c.SnapOrder = rapid.SampledFrom([]string{"pre", "post"}).Draw(t, "snapOrder")
+		}
+		if c.PruneAfter == 0 {
+			c.CM = rapid.SampledFrom([]uint64{0, 0, 0, 1, 300, 3000}).Draw(t, "cm")
 		}
 		nc := rapid.IntRange(0, 3).Draw(t, "ncont")
 		for i := 0; i < nc; i++ {
@@ -763,8 +777,8 @@ func TestC19(t *testing.T) {
 			report(rt, "C19", c, v)
 		}
 		Count("C19", "iterator_queries", st.queries)
-		RecordCase("C19", c, st.checkpoints >= 1 && st.nonCheckpointCommits >= 1 && st.removals >= 1 && st.rotations >= 1,
-			map[string]bool{"shard": c.Shard, fmt.Sprintf("ci_%d", c.CI): true, fmt.Sprintf("hf_%d", c.HF): true, fmt.Sprintf("ed_%d", c.ED): true, "rotations": st.rotations > 0, "removals": st.removals > 0})
+		RecordCase("C19", c, c.CM == 0 && st.checkpoints >= 1 && st.nonCheckpointCommits >= 1 && st.removals >= 1 && st.rotations >= 1,
+			map[string]bool{"checkpoint_memory": c.CM > 0, "shard": c.Shard, fmt.Sprintf("ci_%d", c.CI): true, fmt.Sprintf("hf_%d", c.HF): true, fmt.Sprintf("ed_%d", c.ED): true, "rotations": st.rotations > 0, "removals": st.removals > 0})
 	})
 }
 
@@ -781,6 +795,7 @@ func TestC20(t *testing.T) {
 		Count("C20", "continued_versions", st.continued)
 		Count("C20", "snapshots_loaded", st.snapshots)
 		Count("C20", "prunes", st.pruned)
+		Count("C20", "reloads_with_checkpoint_memory_option", st.reloadsUnknownCheckpoint)
 		Count("C20", "prune_not_finished_in_20s_case_not_reloaded", st.pruneNotFinished)
 		RecordCase("C20", c, st.replayedWithRemoval >= 1,
 			map[string]bool{"shard": c.Shard, fmt.Sprintf("ci_%d", c.CI): true, "pruned": st.pruned > 0, "snapshot": st.snapshots > 0, "continued": st.continued > 0, "replayed_reload": st.replayedReloads > 0})
